@@ -20,6 +20,7 @@
 import FFS.Model.AbiIO
 import FFS.Spec.Abi
 import FFS.Lemmas.Bytes
+import FFS.Props.C19
 namespace FFS.Props.C03
 open FFS FFS.Model.Abi
 
@@ -918,6 +919,398 @@ theorem decodeParams_enc (ns : List String) (ts : List Ty) (cs : List CV) (pre p
   unfold decodeParams
   rw [this]
 
+section jsonReadback
+open FFS.Model.EthTypes
+
+/-! ### JSON output read back (flat-array mode, hexadecimal renderings) -/
+
+/-- the text `encoding/json` hands back for a serialized string (the renderings considered here are ASCII) -/
+def charsOfBytes (b : Bytes) : List Char := b.map fun x => Char.ofNat x.toNat
+
+theorem charsOfBytes_ascii (cs : List Char) (h : ∀ c ∈ cs, c.toNat < 256) : charsOfBytes (asciiBytes cs) = cs := by
+  induction cs with
+  | nil => rfl
+  | cons c t ih =>
+    have hc := h c (by simp)
+    have : Char.ofNat (UInt8.ofNat c.toNat).toNat = c := by
+      rw [UInt8.toNat_ofNat', Nat.mod_eq_of_lt hc, Char.ofNat_toNat]
+    simp only [charsOfBytes, asciiBytes, List.map_cons, List.map_map] at ih ⊢
+    rw [this]
+    congr 1
+    exact ih (fun x hx => h x (by simp [hx]))
+
+theorem hexChar_small (n : Nat) (h : n < 16) : (hexChar n).toNat < 256 := by
+  have : n = 0 ∨ n = 1 ∨ n = 2 ∨ n = 3 ∨ n = 4 ∨ n = 5 ∨ n = 6 ∨ n = 7 ∨ n = 8 ∨ n = 9 ∨ n = 10 ∨ n = 11 ∨ n = 12 ∨
+      n = 13 ∨ n = 14 ∨ n = 15 := by omega
+  rcases this with h | h | h | h | h | h | h | h | h | h | h | h | h | h | h | h <;> subst h <;> decide
+
+theorem natToHex_small (n : Nat) : ∀ c ∈ natToHex n, c.toNat < 256 := by
+  induction n using Nat.strongRecOn with
+  | _ n ih =>
+    rw [natToHex]
+    split
+    · rename_i h
+      intro c hc
+      simp only [List.mem_singleton] at hc
+      rw [hc]; exact hexChar_small n h
+    · intro c hc
+      rw [List.mem_append] at hc
+      rcases hc with hc | hc
+      · exact ih (n / 16) (by omega) c hc
+      · simp only [List.mem_singleton] at hc
+        rw [hc]; exact hexChar_small _ (by omega)
+
+theorem hexEncode_small : ∀ (b : Bytes), ∀ c ∈ hexEncode b, c.toNat < 256
+  | [] => by simp [hexEncode]
+  | x :: xs => by
+    intro c hc
+    simp only [hexEncode, List.mem_cons] at hc
+    have hx : x.toNat < 256 := x.toNat_lt
+    rcases hc with hc | hc | hc
+    · rw [hc]; exact hexChar_small _ (by omega)
+    · rw [hc]; exact hexChar_small _ (by omega)
+    · exact hexEncode_small xs c hc
+
+theorem scanNat0_hex (n : Nat) : scanNat0 ('0' :: 'x' :: natToHex n) = some n := by
+  have := C19.hex_print_parse n
+  unfold hexUint64String at this
+  have hm0 : ∀ cs, setString0 ('0' :: cs) = (scanNat0 ('0' :: cs)).map (fun n => (n : Int)) := fun cs => rfl
+  rw [hm0] at this
+  cases h : scanNat0 ('0' :: 'x' :: natToHex n) with
+  | none => rw [h] at this; simp at this
+  | some m =>
+    have hm : ∀ cs, setString0 ('0' :: cs) = (scanNat0 ('0' :: cs)).map (fun n => (n : Int)) := fun cs => rfl
+    have h2 := C19.hex_print_parse n
+    unfold hexUint64String at h2
+    rw [hm, h] at h2
+    have h3 : ((m : Nat) : Int) = (n : Int) := by simpa using h2
+    congr 1; omega
+
+/-- **An integer printed in hexadecimal (with sign) is read back as exactly that integer.** -/
+theorem serInt_hex_readback (z : Int) :
+    setString0 ((if z < 0 then ['-'] else []) ++ '0' :: 'x' :: natToHex z.natAbs) = some z := by
+  by_cases hz : z < 0
+  · simp only [hz, if_true, List.singleton_append, List.cons_append, List.nil_append]
+    have hm : ∀ cs, setString0 ('-' :: cs) = (scanNat0 cs).map (fun n => -(n : Int)) := fun cs => rfl
+    rw [hm, scanNat0_hex]
+    show some (-((z.natAbs : Nat) : Int)) = some z
+    congr 1; omega
+  · simp only [hz, if_false, List.nil_append]
+    have := C19.hex_print_parse z.natAbs
+    unfold hexUint64String at this
+    rw [this]
+    congr 1; omega
+
+
+mutual
+  /-- what the input walk is given when the serialized tree is read back as JSON (`fl`, `rat`: whatever the external
+      number parsers say about a string — irrelevant for the hexadecimal renderings) -/
+  def jToExt (fl rat : ExtNum) : J → Ext
+    | .bool b => .bool b
+    | .num lit => .num lit fl rat
+    | .str b => .str (String.ofList (charsOfBytes b)) fl rat
+    | .arr xs => .arr (jsToExt fl rat xs)
+    | .obj ks vs => .obj ks (jsToExt fl rat vs)
+  def jsToExt (fl rat : ExtNum) : List J → List Ext
+    | [] => []
+    | x :: xs => jToExt fl rat x :: jsToExt fl rat xs
+end
+
+theorem jsToExt_length (fl rat : ExtNum) : ∀ xs, (jsToExt fl rat xs).length = xs.length
+  | [] => rfl
+  | _ :: xs => by simp [jsToExt, jsToExt_length fl rat xs]
+
+/-- flat-array mode with hexadecimal integers and hexadecimal bytes / addresses -/
+def HexCfg (cfg : SerCfg) : Prop :=
+  cfg.mode = .flatArrays ∧ cfg.ints = .hex0x ∧ (cfg.bytes = .hex ∨ cfg.bytes = .hex0x) ∧
+  (cfg.addr = .none ∨ cfg.addr = .hex0x ∨ cfg.addr = .plain)
+
+/-- the table assigns each elementary type its reader -/
+def ReadOK (info : ElemInfo) : Prop :=
+  (info.name = "int" ∨ info.name = "uint" → info.reader = "getIntegerFromInterface") ∧
+  (info.name = "address" → info.reader = "getUintBytesFromInterface") ∧
+  (info.name = "bool" → info.reader = "getBoolAsUnsignedIntegerFromInterface") ∧
+  (info.name = "bytes" ∨ info.name = "function" → info.reader = "getBytesFromInterface") ∧
+  (info.name = "string" → info.reader = "getStringFromInterface")
+
+theorem table_readers : ∀ info ∈ Gen.AbiTypeTable.table, ReadOK info := by
+  intro info hi
+  simp only [Gen.AbiTypeTable.table, List.mem_cons, List.mem_nil_iff, or_false] at hi
+  rcases hi with h | h | h | h | h | h | h | h | h <;> subst h <;> simp [ReadOK]
+
+theorem hexish_readback (pre : List Char) (hpre : pre = [] ∨ pre = ['0', 'x']) (a : Bytes) :
+    hexDecode (trim0x (charsOfBytes (asciiBytes (pre ++ hexEncode a)))) = some a := by
+  have hsmall : ∀ c ∈ pre ++ hexEncode a, c.toNat < 256 := by
+    intro c hc
+    rw [List.mem_append] at hc
+    rcases hc with hc | hc
+    · rcases hpre with h | h <;> subst h
+      · simp at hc
+      · simp only [List.mem_cons, List.mem_nil_iff, or_false] at hc
+        rcases hc with h | h <;> subst h <;> decide
+    · exact hexEncode_small a c hc
+  rw [charsOfBytes_ascii _ hsmall]
+  rcases hpre with h | h <;> subst h
+  · rw [List.nil_append, C19.trim0x_hexEncode, C19.hexDecode_hexEncode]
+  · show hexDecode (trim0x ('0' :: 'x' :: hexEncode a)) = some a
+    rw [trim0x, C19.hexDecode_hexEncode]
+
+
+/-- string leaves whose bytes are the UTF-8 encoding of the text a JSON parser reads back (every ASCII string is) -/
+def StrLeafOK : CV → Prop
+  | .str b => Model.Abi.utf8 (String.ofList (charsOfBytes b)) = b
+  | _ => True
+
+theorem serBytes_readback (cfg : SerCfg) (hb : cfg.bytes = .hex ∨ cfg.bytes = .hex0x) (a : Bytes) (fl rat : ExtNum) :
+    getBytes (jToExt fl rat (serBytes cfg.bytes a)) = .ok a := by
+  rcases hb with h | h <;> rw [h]
+  · have := hexish_readback [] (Or.inl rfl) a
+    simp only [List.nil_append] at this
+    simp [serBytes, jToExt, getBytes, this]
+  · have := hexish_readback ['0', 'x'] (Or.inr rfl) a
+    simp only [List.cons_append, List.nil_append] at this
+    simp [serBytes, jToExt, getBytes, this]
+
+/-- **Leaf: serialize, read the JSON back, get the same value** (hexadecimal renderings). -/
+theorem leaf_readback (cfg : SerCfg) (hcfg : HexCfg cfg) (info : ElemInfo) (sfx : String) (m n : Nat) (v : CV)
+    (hok : ElemOK info sfx m) (hr : ReadOK info) (hw : Spec.Abi.WellTyped (.elem info sfx m n) v = true)
+    (hs : StrLeafOK v) (fl rat : ExtNum) :
+    ∃ j, serElem cfg info v = .ok j ∧ readElementary info (jToExt fl rat j) = .ok v := by
+  obtain ⟨_, hints, hbytes, haddr⟩ := hcfg
+  obtain ⟨rInt, rAddr, rBool, rBytes, rStr⟩ := hr
+  have intCase : ∀ z : Int, (info.name = "int" ∨ info.name = "uint") → v = .int z →
+      ∃ j, serElem cfg info v = .ok j ∧ readElementary info (jToExt fl rat j) = .ok v := by
+    intro z hn hv
+    subst hv
+    have hread := rInt hn
+    refine ⟨serInt cfg.ints z, by simp [serElem, hn], ?_⟩
+    rw [hints]
+    have hsmall : ∀ c ∈ (if z < 0 then ['-'] else []) ++ '0' :: 'x' :: natToHex z.natAbs, c.toNat < 256 := by
+      intro c hc
+      rw [List.mem_append] at hc
+      rcases hc with hc | hc
+      · split at hc
+        · simp only [List.mem_singleton] at hc; rw [hc]; decide
+        · simp at hc
+      · simp only [List.mem_cons] at hc
+        rcases hc with h | h | h
+        · rw [h]; decide
+        · rw [h]; decide
+        · exact natToHex_small _ c h
+    simp only [serInt, jToExt, readElementary, hread, if_true, getInteger]
+    rw [charsOfBytes_ascii _ hsmall, String.toList_ofList]
+    simp [bigIntegerFromString, serInt_hex_readback z, Outcome.map]
+  rcases hok with ⟨hn, _⟩ | ⟨hn, _⟩ | ⟨hn, _, _, hm⟩ | ⟨hn, _, _, hm⟩ | ⟨hn, _⟩ | ⟨hn, _⟩ | ⟨hn, _⟩
+  · -- int
+    cases v with
+    | int z => exact intCase z (Or.inl hn) rfl
+    | bytes b => simp [Spec.Abi.WellTyped, hn] at hw
+    | str b => simp [Spec.Abi.WellTyped, hn] at hw
+    | kids cs => simp [Spec.Abi.WellTyped] at hw
+  · -- uint
+    cases v with
+    | int z => exact intCase z (Or.inr hn) rfl
+    | bytes b => simp [Spec.Abi.WellTyped, hn] at hw
+    | str b => simp [Spec.Abi.WellTyped, hn] at hw
+    | kids cs => simp [Spec.Abi.WellTyped] at hw
+  · -- address
+    subst hm
+    cases v with
+    | int z =>
+      simp [Spec.Abi.WellTyped, hn] at hw
+      obtain ⟨h0, h1⟩ := hw
+      have hread := rAddr hn
+      have hz : z.natAbs < 256 ^ 20 := by
+        have h2 : (256 : Nat) ^ 20 = 2 ^ 160 := by rw [show (256 : Nat) = 2 ^ 8 from rfl, ← Nat.pow_mul]
+        rw [h2]
+        have : ((2 ^ 160 : Nat) : Int) = (2 : Int) ^ 160 := by simp
+        omega
+      have hfill : fillBytes? z.natAbs 20 = .ok (toBE 20 z.natAbs) := by unfold fillBytes?; rw [if_pos hz]
+      have hback : fromBE (toBE 20 z.natAbs) = z.natAbs := by rw [fromBE_toBE, Nat.mod_eq_of_lt hz]
+      have hzz : ((z.natAbs : Nat) : Int) = z := by omega
+      have hne : ¬ (info.name = "int" ∨ info.name = "uint") := by rw [hn]; decide
+      rcases haddr with ha | ha | ha
+      · refine ⟨serBytes cfg.bytes (toBE 20 z.natAbs), by simp [serElem, hn, hfill, ha], ?_⟩
+        have := serBytes_readback cfg hbytes (toBE 20 z.natAbs) fl rat
+        have hr1 : info.reader ≠ "getIntegerFromInterface" := by rw [hread]; decide
+        simp [readElementary, hread, this, Outcome.map, hback, hzz]
+      · refine ⟨.str (asciiBytes (address0xString (toBE 20 z.natAbs))), by simp [serElem, hn, hfill, ha], ?_⟩
+        have := hexish_readback ['0', 'x'] (Or.inr rfl) (toBE 20 z.natAbs)
+        simp only [List.cons_append, List.nil_append] at this
+        simp [readElementary, hread, jToExt, getBytes, address0xString, this, Outcome.map, hback, hzz]
+      · refine ⟨.str (asciiBytes (addressPlainString (toBE 20 z.natAbs))), by simp [serElem, hn, hfill, ha], ?_⟩
+        have := hexish_readback [] (Or.inl rfl) (toBE 20 z.natAbs)
+        simp only [List.nil_append] at this
+        simp [readElementary, hread, jToExt, getBytes, addressPlainString, this, Outcome.map, hback, hzz]
+    | bytes b => simp [Spec.Abi.WellTyped, hn] at hw
+    | str b => simp [Spec.Abi.WellTyped, hn] at hw
+    | kids cs => simp [Spec.Abi.WellTyped] at hw
+  · -- bool
+    cases v with
+    | int z =>
+      simp [Spec.Abi.WellTyped, hn] at hw
+      have hread := rBool hn
+      refine ⟨.bool (FFS.Model.Secp.bigInt64 z == 1), by simp [serElem, hn], ?_⟩
+      rcases hw with h | h <;> subst h <;> simp [readElementary, hread, jToExt, getBool, Outcome.map] <;> decide
+    | bytes b => simp [Spec.Abi.WellTyped, hn] at hw
+    | str b => simp [Spec.Abi.WellTyped, hn] at hw
+    | kids cs => simp [Spec.Abi.WellTyped] at hw
+  · -- bytes
+    cases v with
+    | bytes b =>
+      have hread := rBytes (Or.inl hn)
+      refine ⟨serBytes cfg.bytes b, by simp [serElem, hn], ?_⟩
+      simp [readElementary, hread, serBytes_readback cfg hbytes b fl rat, Outcome.map]
+    | int z => simp [Spec.Abi.WellTyped, hn] at hw
+    | str b => simp [Spec.Abi.WellTyped, hn] at hw
+    | kids cs => simp [Spec.Abi.WellTyped] at hw
+  · -- function
+    cases v with
+    | bytes b =>
+      have hread := rBytes (Or.inr hn)
+      refine ⟨serBytes cfg.bytes b, by simp [serElem, hn], ?_⟩
+      simp [readElementary, hread, serBytes_readback cfg hbytes b fl rat, Outcome.map]
+    | int z => simp [Spec.Abi.WellTyped, hn] at hw
+    | str b => simp [Spec.Abi.WellTyped, hn] at hw
+    | kids cs => simp [Spec.Abi.WellTyped] at hw
+  · -- string
+    cases v with
+    | str b =>
+      have hread := rStr hn
+      refine ⟨.str b, by simp [serElem, hn], ?_⟩
+      simp only [StrLeafOK] at hs
+      simp [readElementary, hread, jToExt, getString, hs, Outcome.map]
+    | int z => simp [Spec.Abi.WellTyped, hn] at hw
+    | bytes b => simp [Spec.Abi.WellTyped, hn] at hw
+    | kids cs => simp [Spec.Abi.WellTyped] at hw
+
+
+mutual
+  /-- types whose leaves are table rows with their readers, and whose tuples name every child -/
+  def RT : Ty → Prop
+    | .elem info sfx m _ => ElemOK info sfx m ∧ ReadOK info
+    | .farr t _ => RT t
+    | .darr t => RT t
+    | .tuple names ts => names.length = ts.length ∧ RTs ts
+  def RTs : List Ty → Prop
+    | [] => True
+    | t :: ts => RT t ∧ RTs ts
+end
+
+mutual
+  def StrOK : CV → Prop
+    | .kids cs => StrOKs cs
+    | .str b => StrLeafOK (.str b)
+    | .int _ => True
+    | .bytes _ => True
+  def StrOKs : List CV → Prop
+    | [] => True
+    | c :: cs => StrOK c ∧ StrOKs cs
+end
+
+theorem strOK_leaf : ∀ v, StrOK v → StrLeafOK v
+  | .kids _, _ => trivial
+  | .str _, h => h
+  | .int _, _ => trivial
+  | .bytes _, _ => trivial
+
+theorem wellTypedEach_length : ∀ (ts : List Ty) (cs : List CV), Spec.Abi.wellTypedEach ts cs = true → cs.length = ts.length
+  | [], [], _ => rfl
+  | [], _ :: _, h => by simp [Spec.Abi.wellTypedEach] at h
+  | _ :: _, [], h => by simp [Spec.Abi.wellTypedEach] at h
+  | t :: ts, c :: cs, h => by
+    simp only [Spec.Abi.wellTypedEach, Bool.and_eq_true] at h
+    simp [wellTypedEach_length ts cs h.2]
+
+mutual
+  /-- **JSON output read back.** In flat-array mode with hexadecimal integers, bytes and addresses, serializing any
+      well-typed value of any valid type and walking the resulting JSON tree as input returns exactly that value —
+      so encoding it again reproduces the original bytes (`encode_eq_spec` is a function of the value). -/
+  theorem readback (cfg : SerCfg) (hcfg : HexCfg cfg) (fl rat : ExtNum) : (v : CV) → (t : Ty) → RT t →
+      Spec.Abi.WellTyped t v = true → StrOK v →
+      ∃ j, walkOutput cfg t v = .ok j ∧ walkInput t (jToExt fl rat j) = .ok v
+    | v, .elem info sfx m n, hrt, hw, hs => by
+      rw [RT] at hrt
+      obtain ⟨j, h1, h2⟩ := leaf_readback cfg hcfg info sfx m n v hrt.1 hrt.2 hw (strOK_leaf v hs) fl rat
+      exact ⟨j, by rw [walkOutput]; exact h1, by rw [walkInput]; exact h2⟩
+    | .kids cs, .farr t k, hrt, hw, hs => by
+      rw [RT] at hrt
+      rw [Spec.Abi.WellTyped] at hw
+      simp only [Bool.and_eq_true, beq_iff_eq] at hw
+      rw [StrOK] at hs
+      obtain ⟨js, h1, h2, h3⟩ := readback_same cfg hcfg fl rat cs t hrt hw.2 hs
+      refine ⟨.arr js, by rw [walkOutput, h1]; rfl, ?_⟩
+      rw [jToExt, walkInput]
+      simp only [asSlice]
+      rw [if_neg (by rw [jsToExt_length, h2, hw.1]; simp), h3]
+      rfl
+    | .kids cs, .darr t, hrt, hw, hs => by
+      rw [RT] at hrt
+      rw [Spec.Abi.WellTyped] at hw
+      rw [StrOK] at hs
+      obtain ⟨js, h1, _, h3⟩ := readback_same cfg hcfg fl rat cs t hrt hw hs
+      refine ⟨.arr js, by rw [walkOutput, h1]; rfl, ?_⟩
+      rw [jToExt, walkInput]
+      simp only [asSlice]
+      rw [h3]
+      rfl
+    | .kids cs, .tuple names ts, hrt, hw, hs => by
+      rw [RT] at hrt
+      rw [Spec.Abi.WellTyped] at hw
+      rw [StrOK] at hs
+      obtain ⟨kvs, h1, h2, h3⟩ := readback_each cfg hcfg fl rat cs names ts 0 hrt.1 hrt.2 hw hs
+      refine ⟨.arr (kvs.map (·.2.2)), by rw [walkOutput, hcfg.1]; simp only []; rw [h1]; rfl, ?_⟩
+      simp only [jToExt, walkInput, asSlice]
+      rw [if_neg (by rw [jsToExt_length, List.length_map, h2, wellTypedEach_length ts cs hw]; simp), h3]
+      rfl
+    | .int _, .farr _ _, _, hw, _ => by simp [Spec.Abi.WellTyped] at hw
+    | .bytes _, .farr _ _, _, hw, _ => by simp [Spec.Abi.WellTyped] at hw
+    | .str _, .farr _ _, _, hw, _ => by simp [Spec.Abi.WellTyped] at hw
+    | .int _, .darr _, _, hw, _ => by simp [Spec.Abi.WellTyped] at hw
+    | .bytes _, .darr _, _, hw, _ => by simp [Spec.Abi.WellTyped] at hw
+    | .str _, .darr _, _, hw, _ => by simp [Spec.Abi.WellTyped] at hw
+    | .int _, .tuple _ _, _, hw, _ => by simp [Spec.Abi.WellTyped] at hw
+    | .bytes _, .tuple _ _, _, hw, _ => by simp [Spec.Abi.WellTyped] at hw
+    | .str _, .tuple _ _, _, hw, _ => by simp [Spec.Abi.WellTyped] at hw
+  theorem readback_same (cfg : SerCfg) (hcfg : HexCfg cfg) (fl rat : ExtNum) : (cs : List CV) → (t : Ty) → RT t →
+      Spec.Abi.wellTypedSame t cs = true → StrOKs cs →
+      ∃ js, outSame cfg t cs = .ok js ∧ js.length = cs.length ∧ walkSame t (jsToExt fl rat js) = .ok cs
+    | [], t, _, _, _ => ⟨[], by rw [outSame], rfl, by rw [jsToExt, walkSame]⟩
+    | c :: cs, t, hrt, hw, hs => by
+      rw [Spec.Abi.wellTypedSame] at hw
+      simp only [Bool.and_eq_true] at hw
+      rw [StrOKs] at hs
+      obtain ⟨j, h1, h2⟩ := readback cfg hcfg fl rat c t hrt hw.1 hs.1
+      obtain ⟨js, g1, g2, g3⟩ := readback_same cfg hcfg fl rat cs t hrt hw.2 hs.2
+      refine ⟨j :: js, by rw [outSame, h1]; simp only []; rw [g1]; rfl, by simp [g2], ?_⟩
+      rw [jsToExt, walkSame, h2]
+      simp only []
+      rw [g3]; rfl
+  theorem readback_each (cfg : SerCfg) (hcfg : HexCfg cfg) (fl rat : ExtNum) : (cs : List CV) → (names : List String) →
+      (ts : List Ty) → (i : Nat) → names.length = ts.length → RTs ts → Spec.Abi.wellTypedEach ts cs = true → StrOKs cs →
+      ∃ kvs, outEach cfg names ts cs i = .ok kvs ∧ kvs.length = cs.length ∧
+        walkEach ts (jsToExt fl rat (kvs.map (·.2.2))) = .ok cs
+    | [], names, [], i, _, _, _, _ => ⟨[], by cases names <;> simp [outEach], rfl, by simp [jsToExt, walkEach]⟩
+    | [], _, _ :: _, _, _, _, hw, _ => by simp [Spec.Abi.wellTypedEach] at hw
+    | _ :: _, _, [], _, _, _, hw, _ => by simp [Spec.Abi.wellTypedEach] at hw
+    | c :: cs, [], t :: ts, i, hl, _, _, _ => by simp at hl
+    | c :: cs, nm :: names, t :: ts, i, hl, hrt, hw, hs => by
+      rw [Spec.Abi.wellTypedEach] at hw
+      simp only [Bool.and_eq_true] at hw
+      rw [StrOKs] at hs
+      rw [RTs] at hrt
+      obtain ⟨j, h1, h2⟩ := readback cfg hcfg fl rat c t hrt.1 hw.1 hs.1
+      obtain ⟨kvs, g1, g2, g3⟩ := readback_each cfg hcfg fl rat cs names ts (i + 1) (by simpa using hl) hrt.2 hw.2 hs.2
+      refine ⟨((if nm == "" then toString i else nm), render t, j) :: kvs, by rw [outEach, h1]; simp only []; rw [g1]; rfl, by simp [g2], ?_⟩
+      simp only [List.map_cons]
+      rw [jsToExt, walkEach, h2]
+      simp only []
+      rw [g3]; rfl
+end
+
+
+end jsonReadback
+
 /-! ### non-vacuity of the hypotheses -/
 
 
@@ -948,5 +1341,18 @@ example : ∀ u ∈ Gen.AbiTypeTable.table, u.name = "uint" → ∀ s ∈ Gen.Ab
   · simp [Small, SmallEach, SmallSame, LayoutSmall, Spec.Abi.encEach, Spec.Abi.encSame, Spec.Abi.enc, Spec.Abi.isDynamic,
       Spec.Abi.headsLen, tailLen, Spec.Abi.encElem, Spec.Abi.encUint, Spec.Abi.assemble, Spec.Abi.assembleGo, hun, hsn,
       Spec.Abi.padRight32, zeros, Gen.AbiCodecFacts.maxEmptyElementCount]
+
+/-- non-vacuity of `readback`: the table rows for `uint` and `string` give an `RT` type, and an ASCII string leaf is
+    `StrOK` (kernel-evaluated) -/
+example : ∀ u ∈ Gen.AbiTypeTable.table, u.name = "uint" → ∀ s ∈ Gen.AbiTypeTable.table, s.name = "string" →
+    RT (.tuple ["a", "b"] [.elem u "256" 256 0, .darr (.elem s "" 0 0)]) ∧
+    StrOK (.kids [.int 5, .kids [.str [0x61, 0x62], .str []]]) ∧
+    HexCfg { mode := .flatArrays, ints := .hex0x, bytes := .hex0x, addr := .hex0x } := by
+  intro u hu hun s hs hsn
+  refine ⟨?_, ?_, ⟨rfl, rfl, Or.inr rfl, Or.inr (Or.inl rfl)⟩⟩
+  · simp only [RT, RTs, and_true, List.length_cons, List.length_nil, true_and]
+    exact ⟨⟨uint256_ok u hu hun, table_readers u hu⟩, string_ok s hs hsn, table_readers s hs⟩
+  · simp only [StrOK, StrOKs, StrLeafOK, and_true, true_and]
+    constructor <;> decide +kernel
 
 end FFS.Props.C03
